@@ -4,7 +4,7 @@
    rejected: `promised syms c P w` = w is over syms and satisfies P, resp. not P when c = false). *)
 From Coq Require Import List Arith Bool.
 From AV Require Import Base.Util Spec.Lang Spec.FA Spec.Preds Model.Decide Model.Product Model.Construct
-                       Proofs.Preds Proofs.Construct.
+                       Proofs.Preds Proofs.Border Proofs.Construct.
 Import ListNotations.
 
 (* ---- from_prefix: contains / complement, partial / complete ---- *)
@@ -36,6 +36,44 @@ Theorem C15_from_subsequence_valid : forall syms p contains,
   NoDup syms -> valid_dfa (from_subsequence_m syms p contains) = true.
 Proof. intros syms p c Hnd. apply from_subsequence_valid. exact Hnd. Qed.
 Print Assumptions C15_from_subsequence_valid.
+
+(* ---- from_substring / from_suffix: specification model (state = longest prefix of the pattern
+        that is a suffix of the text read, by definition - no failure table); empty pattern included
+        (universal, resp. empty language) ---- *)
+Theorem C15_from_substring_lang : forall syms p contains,
+  L_dfa (from_substring_m syms p contains false) =L promised syms contains (contains_substring p).
+Proof.
+  intros syms p c. apply (promised_lang _ syms c (contains_substring p) (substringb p)).
+  - intro w. apply substringb_spec.
+  - intro w. apply (from_substring_acc syms p c false).
+Qed.
+Print Assumptions C15_from_substring_lang.
+
+Theorem C15_from_suffix_lang : forall syms p contains,
+  L_dfa (from_suffix_m syms p contains) =L promised syms contains (has_suffix p) /\
+  from_substring_m syms p contains true = from_suffix_m syms p contains.
+Proof.
+  intros syms p c. split; [|reflexivity]. apply (promised_lang _ syms c (has_suffix p) (suffixb p)).
+  - intro w. apply suffixb_spec.
+  - intro w. apply (from_substring_acc syms p c true).
+Qed.
+Print Assumptions C15_from_suffix_lang.
+
+Theorem C15_from_substring_valid : forall syms p contains must_be_suffix,
+  NoDup syms -> valid_dfa (from_substring_m syms p contains must_be_suffix) = true.
+Proof. intros syms p c ms Hnd. apply from_substring_valid. exact Hnd. Qed.
+Print Assumptions C15_from_substring_valid.
+
+(* the step lemma behind it: the next state depends only on the current state and the symbol *)
+Theorem C15_longest_border_step : forall p t a,
+  lps p (t ++ [a]) = lps p (firstn (lps p t) p ++ [a]) /\
+  (lps p t <= length p /\ has_suffix (firstn (lps p t) p) t) /\
+  (forall k, k <= length p -> has_suffix (firstn k p) t -> k <= lps p t).
+Proof.
+  intros p t a. split; [apply lps_step|]. split; [exact (lps_bord p t)|].
+  intros k Hk Hs. apply lps_max. split; assumption.
+Qed.
+Print Assumptions C15_longest_border_step.
 
 (* ---- of_length: counted symbols (all symbols when symbols_to_count is None) in [lo, hi] ---- *)
 Theorem C15_of_length_lang : forall syms lo hi cnt,
@@ -110,6 +148,18 @@ Example C15_example_prefix :
   dfa_acc m [0;1;0;1;1] = true /\ dfa_acc m [0;1;1] = false /\ dfa_acc m [0;1;0;2] = false /\
   dfa_acc (from_prefix_m [0;1] [0;1;0] false true) [0;1;1] = true /\
   size (from_prefix_m [0;1] [0;1;0] false true) = 5.
+Proof. vm_compute. repeat split. Qed.
+
+Example C15_example_substring :     (* self-overlapping pattern 0 0 1 0 0 *)
+  let m := from_substring_m [0;1] [0;0;1;0;0] true false in
+  valid_dfa m = true /\ size m = 6 /\
+  d_trans m = [(0,[(0,1);(1,0)]); (1,[(0,2);(1,0)]); (2,[(0,2);(1,3)]); (3,[(0,4);(1,0)]);
+               (4,[(0,5);(1,0)]); (5,[(0,5);(1,5)])] /\
+  dfa_acc m [0;0;0;1;0;0;1] = true /\ dfa_acc m [0;0;1;0;1;0;0] = false /\
+  d_trans (from_suffix_m [0;1] [0;0;1;0;0] true) =
+    [(0,[(0,1);(1,0)]); (1,[(0,2);(1,0)]); (2,[(0,2);(1,3)]); (3,[(0,4);(1,0)]);
+     (4,[(0,5);(1,0)]); (5,[(0,2);(1,3)])] /\
+  from_substring_m [0;1] [] false true = empty_m [0;1].
 Proof. vm_compute. repeat split. Qed.
 
 Example C15_example_numeric :
